@@ -12,7 +12,7 @@ import (
 // Families of input data.
 var Families = []string{
 	"empty", "one", "zeros", "zeroprefix", "run", "random", "xx", "xgapx",
-	"text", "lowent", "periodic", "altseg", "ramp", "nearrep", "sandwich", "maxrun", "randzeros", "sandwich2", "noisyrep", "shortruns",
+	"text", "lowent", "periodic", "altseg", "ramp", "nearrep", "sandwich", "maxrun", "randzeros", "sandwich2", "noisyrep", "shortruns", "ascwords", "descwords",
 }
 
 // Special families used by dedicated cases only (they need particular sizes or dictionaries).
@@ -154,6 +154,20 @@ func Data(r *prng.R, family string, n int) []byte {
 		copy(b[n-q:], text(r, q))
 	case "noisyrep":
 		noisyRep(r, b)
+	case "ascwords", "descwords":
+		// 4-byte big-endian words in ascending / descending order (with a random start and a
+		// small stride): every new word is a new extreme for a matcher that keeps its 4-byte
+		// words in a search tree, which degenerates into a list
+		v := uint32(r.U64())
+		st := uint32(r.Range(1, 3))
+		for i := 0; i+4 <= n; i += 4 {
+			b[i], b[i+1], b[i+2], b[i+3] = byte(v>>24), byte(v>>16), byte(v>>8), byte(v)
+			if family == "ascwords" {
+				v += st
+			} else {
+				v -= st
+			}
+		}
 	case "shortruns":
 		// noise interrupted every few dozen bytes by a short run of one byte value or of a
 		// short period (2..40 bytes, shorter than the 273-byte look-ahead): overlapping matches
